@@ -34,6 +34,19 @@
 #define omp_get_max_threads() 1
 #endif
 
+#ifdef PGM_INDEX_VERIF
+// Verification hooks (no-ops unless the including translation unit defines them before this header).
+#ifndef PGM_INDEX_VERIF_BEGIN
+#define PGM_INDEX_VERIF_BEGIN(n, start, end, epsilon) ((void) 0)
+#endif
+#ifndef PGM_INDEX_VERIF_POINT
+#define PGM_INDEX_VERIF_POINT(x, y) ((void) 0)
+#endif
+#ifndef PGM_INDEX_VERIF_SEGMENT
+#define PGM_INDEX_VERIF_SEGMENT() ((void) 0)
+#endif
+#endif
+
 namespace pgm::internal {
 
 template<typename T>
@@ -277,8 +290,17 @@ size_t make_segmentation(size_t n, size_t start, size_t end, size_t epsilon, Fin
     using K = typename std::invoke_result_t<Fin, size_t>;
     size_t c = 0;
     OptimalPiecewiseLinearModel<K, size_t> opt(epsilon);
+#ifdef PGM_INDEX_VERIF
+    PGM_INDEX_VERIF_BEGIN(n, start, end, epsilon);
+#endif
     auto add_point = [&](K x, size_t y) {
+#ifdef PGM_INDEX_VERIF
+        PGM_INDEX_VERIF_POINT(x, y);
+#endif
         if (!opt.add_point(x, y)) {
+#ifdef PGM_INDEX_VERIF
+            PGM_INDEX_VERIF_SEGMENT();
+#endif
             out(opt.get_segment());
             opt.add_point(x, y);
             ++c;
